@@ -128,8 +128,16 @@ def _selection(fi: FuncInfo):
     return None
 
 
-def _key_shape(key):
+def _key_shape(key, fi=None):
     """('attr', name, negated) or ('table', name, negated) or None."""
+    if isinstance(key, ast.Name) and fi is not None:
+        # a named local function used as key
+        for n in ast.walk(fi.node):
+            if isinstance(n, ast.FunctionDef) and n.name == key.id and len(n.args.args) == 1:
+                rets = [r for r in ast.walk(n) if isinstance(r, ast.Return) and r.value is not None]
+                if len(rets) == 1:
+                    key = ast.Lambda(args=n.args, body=rets[0].value)
+                    break
     if not isinstance(key, ast.Lambda) or len(key.args.args) != 1:
         return None
     p = key.args.args[0].arg
@@ -147,8 +155,17 @@ def _key_shape(key):
     return None
 
 
-def _table(fi: FuncInfo, name: str):
+def _table(fi: FuncInfo, name: str, ctx=None, depth=0):
     """Accumulation table: (source query, increment text, index attr)."""
+    if ctx is not None and depth < 2:
+        for n in own_nodes(fi.node):
+            if isinstance(n, ast.Assign) and isinstance(n.targets[0], ast.Name) and n.targets[0].id == name and isinstance(n.value, ast.Call):
+                ts, _ = ctx.res.callees(fi, n.value, fi.cls)
+                if len(ts) == 1 and not isinstance(ts[0].node, ast.Lambda):
+                    t = ts[0]
+                    rets = [r for r in own_nodes(t.node) if isinstance(r, ast.Return) and isinstance(r.value, ast.Name)]
+                    if len(rets) == 1:
+                        return _table(t, rets[0].value.id, ctx, depth + 1)
     for n in own_nodes(fi.node):
         if isinstance(n, ast.For):
             src = n.iter
@@ -194,7 +211,7 @@ def criterion(ctx, member: str, fi: FuncInfo):
     if sel is None:
         raise AnalysisError(f"{fi.qualname}: selection idiom not recognised")
     direction, key, coll, node = sel
-    ks = _key_shape(key)
+    ks = _key_shape(key, fi)
     if ks is None:
         raise AnalysisError(f"{fi.qualname}: key function not recognised")
     if ks[2]:
@@ -214,7 +231,7 @@ def criterion(ctx, member: str, fi: FuncInfo):
         if ks[0] != "table":
             chk.violation("R04.b", fi, node, f"{member}: operations are ranked by `{ast.unparse(key.body)}`, the documented criterion is {doc}", loc=fi.loc(node))
             return
-        t = _table(fi, ks[1])
+        t = _table(fi, ks[1], ctx)
         if t is None:
             raise AnalysisError(f"{fi.qualname}: accumulation of `{ks[1]}` not recognised")
         src, inc, idx_attr, loopvar = t
@@ -230,6 +247,8 @@ def criterion(ctx, member: str, fi: FuncInfo):
             )
             return
         want_inc = "1" if wkey[2] == "1" else f"{loopvar}.duration"
+        if wkey[2] != "1" and inc.endswith(".duration") and inc.split(".")[0] == (loopvar or ""):
+            inc = want_inc
         if inc != want_inc:
             chk.violation("R04.b", fi, node, f"{member}: the table accumulates `{inc}` per operation, documented is `{want_inc}`", loc=fi.loc(node))
             return
@@ -250,8 +269,8 @@ def tie_breaker(ctx):
     inner = [f for f in repo.functions.values() if f.parent is outer and not isinstance(f.node, ast.Lambda)]
     if len(inner) != 1:
         raise AnalysisError("score_based_rule_with_tie_breaker: inner rule not found")
-    rule = inner[0]
-    provenance(ctx, rule)
+    provenance(ctx, inner[0])
+    rule = ctx.norm.flat(inner[0])
     flow = ctx.flow
     # candidate variable: the name bound to available_operations()
     cand = None
@@ -367,6 +386,7 @@ def metadata(ctx):
         call = cls.methods.get("__call__")
         if call is None:
             continue
+        call = ctx.norm.flat(call)
         n += 1
         writes = {}
         for m in own_nodes(call.node):
@@ -586,7 +606,7 @@ def purity(ctx):
         for w in ctx.effects.closure_writes(fi, fi.cls, max_depth=3, stop=lambda t: t.name in ("create_or_get_observer", "__init__")):
             obj = w.obj
             # rebinding an attribute of the callable object itself is its own state
-            if isinstance(obj, ast.Name) and w.fi.cls is not None and w.fi.params and obj.id == w.fi.params[0] and w.fi.name == "__call__":
+            if isinstance(obj, ast.Name) and w.fi.cls is not None and w.fi.params and obj.id == w.fi.params[0] and w.fi.cls is fi.cls:
                 continue
             shared = [o for o in w.origins if is_shared(o) and o[0] not in ("unknown", "global")]
             if not shared:
